@@ -39,7 +39,7 @@ T1 = NB * 2 * len(AMPS)                                 # 384     one stage  x h
 T2 = NB * NB * 2 * len(AMPS) ** 2                       # 73 728  two stages x halt x amplification^2
 T3 = NB ** 3 * 2                                        # 221 184 three stages x halt (amplification sampled)
 TABLE = {"quick": T1 + T2, "thorough": T1 + T2 + T3}
-RUNS = {"quick": TABLE["quick"] + 45_888, "thorough": TABLE["thorough"] + 904_704}
+RUNS = {"quick": TABLE["quick"] + 45_888, "thorough": TABLE["thorough"] + 2_704_704}
 EXHAUSTIVE = {"quick": False, "thorough": False}        # the statement's space (1..5 stages) is only partly enumerated
 RULE = ("run i < table size is the i-th pipeline of the complete table {checkpoint absent/pass/reject/raise} x "
         "{processor ok/raise} x {error handler absent/recover/raise} x {required, optional} per stage (48 combinations) "
@@ -491,8 +491,8 @@ def run(plan, k):
                             f"every stage completed, none misbehaved; statuses {[_status(sr) for sr in res.stage_results]}")
             if res.final_output is not None:
                 i = next((i for i in range(n) if not done[i]), 0)
-                k.violation("no_output", "output_released_without_success", f"{hs}:{why[i] or fate[i]}",
-                            f"success=False but final_output={res.final_output!r}")
+                k.violation("no_output", "output_released_without_success", hs,
+                            f"success=False (stage {i}: {why[i] or fate[i]}) but final_output={res.final_output!r}")
         if mapk and not cfg["drop_first"] and not plan["ops"]:
             want = {"signal": signal0, "tier": 3, "active": True, "response": "ACTIVATED"}
             if res.success and res.final_output == want:
